@@ -295,8 +295,16 @@ def fake_os(proc):
         cpu_count=lambda: RT.run.model["cpu"],
         sched_getaffinity=lambda pid: set(range(RT.run.model["cpu"])),
         _exit=_exit,
+        fork=_no_fork,
     )
     return make_module("os", real_os, ov)
+
+
+def _no_fork():
+    run = RT.run
+    cur = RT.sched.cur()
+    run.obs.notes.append(("fork-attempted", cur.proc.pid if cur else 0))
+    raise OSError(38, "fork() is not modelled by the simulator")
 
 
 def fake_time(proc):
@@ -367,6 +375,7 @@ def fake_posixsubprocess(proc):
         child.exec_env = dict(cenv)
         child.info["close_fds"] = bool(close_fds)
         child.info["pass_fds"] = sorted(int(f) for f in pass_fds)
+        child.info["parent_env_at_exec"] = dict(proc.env)
         child.info["parent_fds_at_exec"] = sorted(proc.fds)
         child.info["parent_inheritable_at_exec"] = sorted(f for f, v in proc.inh.items() if v)
         k.log.append(("exec", proc.pid, child.pid, argv[1:3]))
@@ -868,6 +877,10 @@ def start_process(child):
         child.role = "tracker"
     else:
         child.role = "child"
+    if child.role == "tracker":
+        for of in child.fds.values():
+            if of.mode == "r":
+                of.pipe.watch = True
     RT.run.on_proc_start(child)
 
     def entry():
